@@ -308,6 +308,17 @@ class _NP:
     def __getattr__(self, name):
         raise Unsupported("numpy.%s has no assumed contract in the prelude" % name)
 
+    @property
+    def ma(self):
+        from .prelude_io import MA
+
+        return MA
+
+    def loadtxt(self, fobj, dtype=None, **kw):
+        from .prelude_io import sym_loadtxt
+
+        return sym_loadtxt(fobj, dtype, **kw)
+
     # ---- constructors
     def array(self, x, dtype=None, copy=True):
         _use("array")
